@@ -520,6 +520,13 @@ pre_type(struct emu *emu)
 		return -1;
 	}
 
+	/* It must have the type id and a nil terminated label */
+	uint32_t jsize = emu->ev->payload->jumbo.size;
+	if (jsize < 4 + 1 || emu->ev->payload->jumbo.data[jsize - 1] != '\0') {
+		err("bad jumbo payload in type event");
+		return -1;
+	}
+
 	const uint8_t *data = &emu->ev->payload->jumbo.data[0];
 	uint32_t typeid;
 	memcpy(&typeid, data, 4); /* May be unaligned */
